@@ -117,28 +117,41 @@ def answer(tb, method, target, hdrs):
     return ("resp", send_response(206, b"Partial Content", n, extra) + gen_bytes(a, n))
 
 
-def expected(tb, stream):
+def expected_why(tb, stream):
     """what a client that sent `stream` on one connection must observe:
-    (bytes, end) with end in open | closed | stalled | unknown"""
+    (bytes, end, why, consumed, idle) with end in open | closed | stalled | unknown; why names the
+    request that decided the end (malformed | badrange | close | keepalive_off | stall | open |
+    unknown); consumed = number of stream bytes up to the end of the last request looked at;
+    idle = the stream offsets behind an answered request after which the connection stays open"""
     out = b""
     pos = 0
+    idle = []
     while True:
         i = stream.find(b"\r\n\r\n", pos)
         if i < 0:
-            return out, "open"
+            return out, "open", "open", pos, idle
         block = stream[pos:i + 4]
         pos = i + 4
         c = classify(block)
-        if c[0] == "malformed": return out, "closed"
-        if c[0] == "unknown": return out, "unknown"
+        if c[0] == "malformed": return out, "closed", "malformed", pos, idle
+        if c[0] == "unknown": return out, "unknown", "unknown", pos, idle
         a = answer(tb, c[1], c[2], c[3])
-        if a[0] == "stall": return out, "stalled"
-        if a[0] == "close": return out, "closed"
-        if a[0] == "unknown": return out, "unknown"
+        if a[0] == "stall": return out, "stalled", "stall", pos, idle
+        if a[0] == "close": return out, "closed", "badrange", pos, idle
+        if a[0] == "unknown": return out, "unknown", "unknown", pos, idle
         out += a[1]
         want_close = c[3].get(b"connection", b"").lower() == b"close"
-        if want_close or not tb.keepalive:
-            return out, "closed"
+        if want_close:
+            return out, "closed", "close", pos, idle
+        if not tb.keepalive:
+            return out, "closed", "keepalive_off", pos, idle
+        idle.append(pos)
+
+
+def expected(tb, stream):
+    """(bytes, end) of expected_why"""
+    r = expected_why(tb, stream)
+    return r[0], r[1]
 
 
 def _kv(tk):
@@ -156,13 +169,22 @@ def _unhex(s):
 
 
 def check(impl, scn):
+    return check_stats(impl, scn)[0]
+
+
+def check_stats(impl, scn):
+    """-> (failures, counters): the counters say how often each clause was really evaluated
+    (they go into the evidence file, see props/c16.py)"""
+    st = {}
     try:
-        return _check(impl, scn)
+        return _check(impl, scn, st), st
     except Exception as e:          # never raise
-        return [("monitor_error", repr(e))]
+        return [("monitor_error", repr(e))], st
 
 
-def _check(impl, scn):
+def _check(impl, scn, st=None):
+    if st is None: st = {}
+    def cnt(k, n=1): st[k] = st.get(k, 0) + n
     fails = []
     servers = {}        # name -> dict(port, tb, alive, stopped, ever_ok)
     port_of = {}        # port -> server name (latest successful new)
@@ -174,12 +196,15 @@ def _check(impl, scn):
     kstopped = False
     stop_seen = {}      # port -> True once a server on it was stopped/destroyed and none is alive
     seq = 0
+    quiet_seq = None    # position of the `R` line of the last run() that returned
     for ln in impl:
         tk = ln.split()
         if not tk: continue
         seq += 1
         if tk[0] == "X": crashed = True
-        if tk[0] == "R": quiescent = (" n=" in ln) and not kstopped
+        if tk[0] == "R":
+            quiescent = (" n=" in ln) and not kstopped
+            quiet_seq = seq
         if tk[0] == "C" and "=>" in tk:
             ar = tk.index("=>")
             op = tk[2:ar]; resl = tk[ar + 1:]
@@ -209,8 +234,12 @@ def _check(impl, scn):
                     elif m == "redirect" and len(op) > 2: sv["tb"].handlers[op[1].encode()] = ("redirect", op[2].encode())
                     elif m == "handler" and len(op) > 1: sv["tb"].handlers[op[1].encode()] = ("fixed", _unhex(d.get("body", "-")))
                     elif m == "stall" and len(op) > 1: sv["tb"].stalls.add(op[1].encode())
-                    elif m == "stop": sv["stopped"] = True; stop_seen[sv["port"]] = True
-                    elif m == "destroy": sv["alive"] = False; stop_seen[sv["port"]] = True
+                    elif m == "stop":
+                        sv["stopped"] = True; stop_seen[sv["port"]] = True
+                        if sv.get("stop_seq") is None: sv["stop_seq"] = seq; sv["stop_ctx"] = tk[1]
+                    elif m == "destroy":
+                        sv["alive"] = False; stop_seen[sv["port"]] = True
+                        if sv.get("stop_seq") is None: sv["stop_seq"] = seq; sv["stop_ctx"] = tk[1]
                 continue
             if o.startswith("a") and m == "bind" and len(op) > 1:
                 # a plain acceptor binding the port of a stopped server
@@ -219,6 +248,10 @@ def _check(impl, scn):
                 live = [s for s in servers.values() if s["port"] == port and s["alive"] and not s["stopped"]]
                 if port in stop_seen and not live and resl and resl[0] == "in_use":
                     fails.append(("stop_frees_port", "%s: port %d still in use after stop()" % (o, port)))
+                if resl and resl[0] == "ok" and not live:
+                    # the port now belongs to a listener that is not an http_server: whoever dials
+                    # it from here on is no client of a server this monitor knows
+                    port_of.pop(port, None)
                 continue
             if not o.startswith("s"): continue
             if m == "connect" and len(op) > 2:
@@ -229,22 +262,24 @@ def _check(impl, scn):
                 S = servers[sv]
                 c = dict(sock=o, server=sv, h=op[2], conn=None, conn_seq=None, reading=False, sent=b"", issued=b"", pending=0, recv=[], eof=False, rerr=None,
                          closed_by_client=False, refuse_expected=(S["stopped"] or not S["alive"]),
-                         sends={}, touched=False, seq=seq)
+                         sends={}, nsend=0, send_at=[], touched=False, seq=seq)
                 clients[o] = c; order.append(o); hmap[op[2]] = ("connect", o)
             elif o in clients:
                 c = clients[o]
                 if m == "send" and len(op) > 1:
                     hmap[op[1]] = ("send", o, _unhex(d.get("data", "-")))
                     # the stream the client offers: composed writes are issued one after the other
-                    c["issued"] += _unhex(d.get("data", "-")); c["pending"] += 1
+                    c["send_at"].append(len(c["issued"]))
+                    c["issued"] += _unhex(d.get("data", "-")); c["pending"] += 1; c["nsend"] += 1
                 elif m == "read_loop" and len(op) > 1:
                     hmap[op[1]] = ("read", o); c["reading"] = True
                 elif m == "close":
-                    if not c["closed_by_client"]: c["pos_at_close"] = sum(x[0] for x in c["recv"])
+                    if not c["closed_by_client"]: c["pos_at_close"] = sum(x[0] for x in c["recv"]); c["close_seq"] = seq
                     c["closed_by_client"] = True
                 elif m == "destroy":
                     # ~socket() drops the connection without telling the peer (no end-of-file is
                     # sent): for the server this client has silently vanished
+                    if not c["closed_by_client"]: c["close_seq"] = seq
                     c["closed_by_client"] = True; c["vanished"] = True
                 elif m == "cancel":
                     c["touched"] = True
@@ -266,7 +301,9 @@ def _check(impl, scn):
             elif e[0] == "read":
                 if d.get("ec") == "ok":
                     c["recv"].append((int(d.get("n", 0)), d.get("data"), d.get("sum")))
-                elif d.get("ec") == "eof": c["eof"] = True
+                elif d.get("ec") == "eof":
+                    if not c["eof"]: c["eof_seq"] = seq
+                    c["eof"] = True
                 else: c["rerr"] = d.get("ec")
     if crashed: return fails
     # with scripted droppers or small finite queues a segment can be lost for good (the simulated
@@ -286,9 +323,12 @@ def _check(impl, scn):
         # service order: accepted connections in the order they were accepted, then the rest
         mine.sort(key=lambda c: (0, c["conn_seq"]) if c["conn"] == "ok" else (1, c["seq"]))
         blocked = False          # an earlier connection is (as far as the statement tells) still held by the server
+        stop_seq = S.get("stop_seq")        # first stop() / destructor of this server (None: never)
+        if stop_seq is not None and (quiet_seq is None or stop_seq < quiet_seq): cnt("stop_in_run")
         for c in mine:
             if c["touched"]: blocked = True; continue
             if c["refuse_expected"]:
+                cnt("refuse_checked")
                 if c["conn"] is not None and c["conn"] != "refused":
                     fails.append(("stop_refuses", "%s connected to port %d after stop(): ec=%s, expected refused" % (c["sock"], S["port"], c["conn"])))
                 if c["conn"] is None and quiescent:
@@ -296,10 +336,15 @@ def _check(impl, scn):
                 continue
             if blocked:
                 continue
-            if S["stopped"] or not S["alive"]:
+            if stop_seq is not None and c["conn"] != "ok":
                 # connected before the stop but possibly still queued when it happened: no claim
-                # unless it was in fact accepted
-                if c["conn"] != "ok": continue
+                # unless it was in fact accepted. A stop() / destructor that came only after the
+                # connect had completed, or after the run had gone quiescent, changes nothing in
+                # what had to happen before it.
+                done_before = c["conn_seq"] is not None and c["conn_seq"] < stop_seq
+                quiet_before = c["conn"] is None and quiet_seq is not None and quiet_seq < stop_seq
+                if not (done_before or quiet_before): continue
+            if c is not mine[0]: cnt("next_checked")
             if c["conn"] is None:
                 if quiescent and not lossy:
                     fails.append(("next_client_accepted", "%s: connect to the listening server never completed although every earlier connection was closed" % c["sock"]))
@@ -309,7 +354,8 @@ def _check(impl, scn):
                 blocked = True; continue
             # what the bytes offered by this client call for; the server may stop consuming them
             # (a closing response) before all of them were even accepted by the client's TCP
-            exp, end = expected(S["tb"], c["issued"])
+            exp, end, why, consumed, idle = expected_why(S["tb"], c["issued"])
+            cnt("clients")
             # received bytes against the expected stream, chunk by chunk
             pos = 0; bad = False
             for (n, data, sm) in c["recv"]:
@@ -329,8 +375,26 @@ def _check(impl, scn):
             if bad: blocked = True; continue
             if end == "unknown":
                 blocked = True; continue
+            # a write that fails because the server has already closed (as it had to, on a request
+            # that the client's TCP had taken in full) takes nothing away from what must arrive
+            send_ok = not c.get("send_err") or (end == "closed" and consumed <= len(c["sent"]))
             complete = (quiescent and not lossy and c["reading"] and not c["closed_by_client"] and c["rerr"] is None
-                        and not c.get("send_err") and (end == "closed" or c["pending"] == 0))
+                        and send_ok and (end == "closed" or c["pending"] == 0))
+            if complete:
+                cnt("complete")
+                if c["nsend"] > 1: cnt("complete_cut")
+                # sequential use: a write that starts exactly where the connection had gone idle
+                if any(o in idle for o in c["send_at"][1:]): cnt("complete_idle_next")
+            if stop_seq is not None and (quiet_seq is None or stop_seq < quiet_seq) and c["conn_seq"] < stop_seq:
+                # the connection was there when stop() came (counters only)
+                gone = [x for x in (c.get("eof_seq"), c.get("close_seq")) if x is not None]
+                if not gone or min(gone) > stop_seq:
+                    kind = "partial" if (why == "open" and consumed < len(c["issued"])) else why
+                    cnt("stop_open"); cnt("stop_open_" + kind)
+                    if lossy: cnt("stop_open_lossy")
+                    if complete: cnt("stop_open_complete")
+                    # ... and the server closed it afterwards: its closing path ran while stopping
+                    if c["eof"]: cnt("stop_then_eof_" + kind)
             if complete and pos < len(exp):
                 fails.append(("responses", "%s: only %d of the %d expected response bytes arrived (%d request bytes offered), simulation quiescent" % (c["sock"], pos, len(exp), len(c["issued"]))))
                 blocked = True; continue
